@@ -159,3 +159,23 @@ def run(ctx, R):
          "special first characters of graphic tokens: %s; oracle %s ('/*' opens a comment, a lone '.' is the end token; nothing else needs quotes, "
          "e.g. '.*' is an ordinary graphic token)" % (table, ORACLE), F.where(ng))
     R.sample({"printer_chain": [sorted(classes(c)) for c, _ in pc], "lexer_chain": [sorted(classes(c)) for c, _ in lc], "graphic_specials": {k: {a: str(b) for a, b in v.items()} for k, v in table.items()}})
+    # the quoted form is computed from the characters of the atom: no special case keyed on the atom's whole text, except
+    # the oracle's own ones. (A stray `atom == "''"` once wrote the two-quote atom as the empty atom.)
+    pa = [p for p, it in F.items.items() if p.endswith("::print_op_addendum") and it["file"] == "src/heap_print.rs"]
+    if len(pa) != 1:
+        raise AnchorLost("HCPrinter::print_op_addendum: %s" % pa)
+    lits = []
+    for n in walk(F.hir(pa[0])["body"]):
+        if n["k"] == "Binary" and n["op"] in ("Eq", "Ne"):
+            for side in (n["a"], n["b"]):
+                for x in walk(side):
+                    if x["k"] == "Lit" and "str" in (x.get("lit") or {}):
+                        lits.append(x["lit"]["str"])
+        if n["k"] == "Match":
+            for arm in n["arms"]:
+                for q in walk(arm["pat"]):
+                    if q.get("k") == "PLit" and "str" in (q.get("lit") or {}):
+                        lits.append(q["lit"]["str"])
+    R.ob("C55:quoted-form:no-special-case-by-text", not lits,
+         "print_op_addendum compares the atom's text with %s before quoting it character by character: such a case writes that atom in a form chosen by hand "
+         "(the two-quote atom was once written as '' — the empty atom)" % lits, F.where(pa[0]))
